@@ -139,11 +139,18 @@ func ruleGroupDelta(rule string) func(*Ctx) {
 					got := ""
 					for _, s := range p.stores {
 						if s.addr == co+".groupDelta" {
-							got = s.val.expr
+							got = s.val.v()
 						}
 					}
-					if got != want && bad == "" {
-						bad = fmt.Sprintf("groupDelta = %s, want %s", got, want)
+					w := want
+					for _, cd := range p.conds {
+						if cd.taken && strings.Contains(cd.expr, "lowestPathIdx < 0") {
+							// no lowest path: delta itself was made positive first
+							w = strings.Replace(want, co+".delta", "math.Abs("+co+".delta)", 1)
+						}
+					}
+					if got != w && bad == "" {
+						bad = fmt.Sprintf("groupDelta = %s, want %s", got, w)
 					}
 					// arc direction: stepSin is negated exactly under groupDelta < 0
 					for _, s := range p.stores {
